@@ -329,7 +329,9 @@ class C15(CreateProp):
     level_text = ("TLC checks Hasher(align) plus the padding arithmetic of TorrentFile.assemble (HasherV1.tla: "
                   "AssembleCorrect) exhaustively in a scaled world - the arithmetic as found at the pinned commit is "
                   "kept as a must-fail variant - and validates recorded aligned creates against the padded-stream "
-                  "reference: boundaries, gap lengths, pieces of the declared stream, piece count, single file.")
+                  "reference: boundaries, gap lengths, pieces of the declared stream, piece count, single file. The arithmetic "
+                  "facts behind it (gap in 0..P-1, gap aligns the next file, gap = 0 exactly for piece multiples, ceil-division "
+                  "covers the payload) are proved for ALL naturals with TLAPS (spec/proofs/CoreLemmas.tla, thorough tier).")
     rule = ("as C01 with align=True; non-trivial = some file empty or not a multiple of P")
 
     def mc(self, tier):
